@@ -111,6 +111,19 @@ def run(F, R):
 
     # ---------------------------------------------------------------- R3 metadata == wire bytes
     R.rule("C03-R3", "the retained metadata holds get_serialized_body() of the very Intermediate that becomes the wire request, the same key id and nonce as the URI; both serialisations go through Intermediate::serialize_body of an unmodified body")
+    # .. and that metadata is what the exchange hands back (to the installer, for re-verification of the stored response):
+    # the third member of its Ok tuple is the metadata half of this exchange's build(), on every success path
+    exb_ = [b for b in c.bodies if b["kind"] == "coroutine" and any(t.get("trait") == "cup_ecdsa::Cupv2RequestHandler" and t.get("name") == "verify_response" for _, t in BV.of(b).calls())]
+    if R.floor("C03-R3", "exchange function (caller of verify_response)", len(exb_), 1):
+        ev_ = BV.of(exb_[0])
+        oks_ = [x for x in walk(ev_.trace_local(0)) if x[0] == "agg" and (x[2] or "").endswith("Result::Ok") and len(x[3]) == 1 and strip(x[3][0])[0] == "agg" and strip(x[3][0])[1] == "tuple"]
+        if R.floor("C03-R3", "Ok tuple of the exchange function", len(oks_), 1):
+            for n_, ok_ in enumerate(oks_):
+                tup_ = strip(ok_[3][0])[3]
+                mds_ = [terms.render(ev_, a_, W, {}, transparent=T) for a_ in tup_ if "RequestMetadata" in fmt_t(a_) or "build(" in terms.render(ev_, a_, W, {}, transparent=T)[:8]]
+                md_ = terms.render(ev_, tup_[2], W, {}, transparent=T) if len(tup_) > 2 else "?"
+                R.check("C03-R3", "metadata-handed-back#%d" % n_, md_.startswith("build(") and md_.endswith("@Continue.0.1"), md_[:80],
+                        "the exchange returns %s as request metadata instead of the metadata its own build() produced: the installer cannot re-verify the response it stores" % md_[:80])
     ret = [x for x in walk(dec.trace_local(0)) if x[0] == "agg" and x[2] and x[2].endswith("RequestMetadata::RequestMetadata")]
     if R.floor("C03-R3", "RequestMetadata construction", len(ret), 1):
         md = ret[0]
@@ -191,6 +204,7 @@ def run(F, R):
     # ---------------------------------------------------------------- R4 fresh decoration per send
     R.rule("C03-R4", "between any two sends there is a RequestBuilder::build (hence a decoration with a fresh nonce) and a request_id(GUID::new()); the send consumes that build's request")
     lib.check_as_configured(R, "C03-R4", W, sm, {"cup_handler": "cup_handler", "http": "http"})
+    lib.builder_setters_preserve(R, "C03-R4", W, sm.c, ["cup_handler", "http"])
     reqs = sm.env(S, "Http", "request")
     decs = sm.env(S, "Cup", "decorate_request")
     # "with a CUP handler configured": the no-handler edge of build_intermediate is out of scope
